@@ -130,6 +130,19 @@ CLAIMS = {
         note="tar/PAX/gzip byte-level encoding is exercised, not modelled; the specification sees the abstract tree. umask "
              "022 is set by the driver; the check runs as root. IgnoreNoName and the remote intermediate are not covered yet.",
         ref="3 C12", technique="TLA+ expectation function; TLC-emitted cases replayed through the real pipeline, outcome judged by TLC"),
+    "C15": dict(
+        text="PagingModel.tla gives the distribution specification's paginating server and the client loop as functions; "
+             "Paging.tla checks over the full case space (list of <= 3-4 items, last, client page size, server cap, Link form "
+             "absolute / path-relative / query-only / with extra parameters, callback failure page, artifact-type filter "
+             "applied or not by the server, a document larger than MaxMetadataBytes) that every wanted item is delivered "
+             "once, in order, and the loop stops at a callback error; the emitted cases are run through the real "
+             "Repository.Tags, Registry.Repositories and Repository.Referrers against a scripted server that counts the bytes "
+             "consumed from each response, and PagingJudge.tla checks delivery, error propagation, the read limit and the "
+             "request paths, and that pages, requests and outcome equal the model's run.",
+        note="The sorted / last-honouring OCI-layout Tags listing is judged in the store family (StoreMon TagsListing, C06). The "
+             "scripted server is itself validated against PagingModel (L2).",
+        ref="3 C15", technique="TLA+ model of client loop and server model-checked with TLC; TLC-emitted cases replayed into the "
+                              "code, judged and compared with the model by TLC"),
     "C17": dict(
         text="Retry.tla transcribes retry.Transport.RoundTrip (attempt loop, policy decision, rewind through GetBody, pause, "
              "cancellation) over every server script of <= 3-4 answers (200, 401, 404, 408, 429 with/without Retry-After, "
